@@ -180,7 +180,8 @@ impl Worker {
 
     pub fn is_free(&self) -> bool {
         (match &self.assignment {
-            WorkerAssignment::Sn(a) => a.assigned_tasks.is_empty(),
+            // Pre-sent tasks wait in the worker's backlog and may start at any moment
+            WorkerAssignment::Sn(a) => a.assigned_tasks.is_empty() && a.prefilled_tasks.is_empty(),
             WorkerAssignment::Mn(_a) => false,
         }) && !self.is_stopping()
     }
